@@ -237,13 +237,16 @@ def build_and_run(fs):
     if r.returncode != 0:
         return name, None, r.stdout[-1500:]
     out = subprocess.run([os.path.join(target, 'debug', 'fp')], stdout=subprocess.PIPE, stderr=subprocess.PIPE, text=True)
-    if out.returncode != 0:
-        return name, None, 'fingerprint binary failed: ' + out.stderr[-800:]
     secs = {}
     for line in out.stdout.splitlines():
         p = line.split()
-        if p and p[0] == 'section':
+        if p and p[0] == 'section' and len(p) == 5:
             secs[p[1]] = {'roots': int(p[2].split('=')[1]), 'types': int(p[3].split('=')[1]), 'hex': p[4]}
+    if out.returncode != 0:
+        # the program ran and died inside the library: the sections printed so far are kept, the crash is reported by run()
+        m = [l for l in out.stderr.splitlines() if 'panicked at' in l]
+        k = out.stderr.find('panicked at')
+        return name, secs, 'CRASH exit %s after %d sections: %s' % (out.returncode, len(secs), out.stderr[k:k + 300].replace('\n', ' ') if k >= 0 else out.stderr[-300:])
     return name, secs, None
 
 
@@ -269,14 +272,24 @@ def run(pid, tier):
     results = {}
     notbuilt = {}
     with concurrent.futures.ThreadPoolExecutor(max_workers=4 if thorough else 5) as ex:
+        crashed = {}
         for name, secs, err in ex.map(build_and_run, sets):
             if secs is None: notbuilt[name] = err
-            else: results[name] = secs
+            else:
+                results[name] = secs
+                if err: crashed[name] = err
+    if crashed and len(crashed) == len(results):
+        print(list(crashed.items())[:1])
+        print('MACHINERY-FAILURE: the fingerprint program dies in every feature set (nothing to compare)')
+        return 2
     if not results or len(notbuilt) * 2 > len(sets):
         print(list(notbuilt.items())[:1])
         print('MACHINERY-FAILURE: %d of %d feature sets do not build' % (len(notbuilt), len(sets)))
         return 2
     violations = []
+    for name, err in sorted(crashed.items()):
+        ok = [n for n in results if n not in crashed][0]
+        violations.append({'key': 'dies-in-some-feature-sets', 'msg': 'the same program completes with features [%s] and dies with features [%s]: %s' % (ok, name, err), 'case': {'kind': 'feature-sets', 'a': ok, 'b': name, 'section': '*'}})
     groups = {True: [], False: []}
     for name in results: groups['docs' in name.split('-')].append(name)
     comparisons = 0
